@@ -58,11 +58,18 @@ def roundtrip(x, p):
         mid = p['mid'].encode('latin-1')
         k = n // 2
         text = text[:k] + pre + mid + post + text[k:]
+    arg = text
+    if p.get('as_bytearray'):
+        # a caller that holds its text in a bytearray: compressing must not
+        # change the caller's buffer (the header length is taken from it)
+        arg = bytearray(text)
     try:
-        stream = compress.compress_code(text)
+        stream = compress.compress_code(arg)
     except Exception as e:
         x.check('compress_code does not raise', False, info=repr(e))
         return
+    x.check('the text handed to compress_code is left as it was',
+            bytes(arg) == text)
     x.out('stream', bytes(stream))
     full = text
     if b'_update60' in text:
@@ -200,7 +207,9 @@ HARNESSES = [
                    # PICO-8's own compatibility line written out in the
                    # middle of a program is ordinary code
                    dict(Q, n=2, mid=FUTURE2, pre='', post='\nx=1'),
-                   dict(Q, n=1, mid=FUTURE1, pre='y=2\n', post='\n')],
+                   dict(Q, n=1, mid=FUTURE1, pre='y=2\n', post='\n'),
+                   dict(Q, n=2, mid='_update60', pre='', post='\n',
+                        as_bytearray=True)],
             thorough=[dict(Q, n=2, mid='_update60', pre='', post='\n'),
                       dict(Q, n=2, mid='_update60', pre='if', post=''),
                       dict(Q, n=4, mid='_update60', pre='', post='',
